@@ -601,7 +601,7 @@ def z_parallel_probe(exe):
 
 
 def near_axis_probe(exe):
-    rot = [0.003, -0.004, math.sqrt(1 - 25e-6)]
+    rot = [0.0003, -0.0004, math.sqrt(1 - 25e-8)]
     line = "rot %s" % hxs([0.0, 0.0, 1.0] + rot)
     _, out = vlib.run_lines([exe], [line])
     return line, out[0], rot, [fl(w) for w in out[0].split()]
@@ -623,6 +623,9 @@ def run(ctx):
     lines, meta = gen_lines(ctx.rng, n)
     lines += ["scint x | 1", "cer Q 1 | 2", "frob", "", "rot 1 2"]
     meta += [("malformed",)] * 5
+    corpus = read_corpus()
+    lines += corpus
+    meta += [("corpus",)] * len(corpus)
     diverged, kinds, distinct, fails = [], {}, set(), []
     photons = 0
     _, oh = vlib.run_lines([exe], lines)
@@ -726,6 +729,16 @@ def run(ctx):
                        "confirmed defect of the code (scint-wavelength-nonpositive).",
     })
     return LEVEL
+
+
+def read_corpus():
+    """corpus/C20/*.ops: past findings / disagreements, compared model-vs-implementation first"""
+    import glob
+    import os
+    out = []
+    for f in sorted(glob.glob(os.path.join(vlib.CORPUS, "C20", "*.ops"))):
+        out += [l.rstrip("\n") for l in open(f) if l.strip() and not l.startswith("#")]
+    return out
 
 
 def nan_equal(a, b):
